@@ -217,13 +217,13 @@ func (c *Ctx) RequestBody() *RequestBody {
 		rb.Content = JSONContent(c.BodySchema("reqbody"))
 		// further media types beside application/json (sorting before and after it):
 		// the JSON one stays the typed body, for inline and for component bodies alike
-		if rapid.IntRange(0, 3).Draw(t, "body_extra_media_type") == 0 && c.Allow("body:extra-media-type") {
-			mt := rapid.SampledFrom([]string{"application/cbor", "application/csv", "application/atom+xml", "application/xml", "text/plain", "multipart/form-data", "application/x-www-form-urlencoded"}).Draw(t, "body_extra_mt")
+		if rapid.IntRange(0, 2).Draw(t, "body_extra_media_type") == 0 && c.Allow("body:extra-media-type") {
+			mt := rapid.SampledFrom([]string{"application/cbor", "application/csv", "application/atom+xml", "*/*", "application/xml", "text/plain", "multipart/form-data", "application/x-www-form-urlencoded"}).Draw(t, "body_extra_mt")
 			rb.Content[mt] = &MediaType{Schema: &Schema{Type: "string", Format: "binary"}}
 			c.Tag("body:extra-media-type")
 		}
 	}
-	if rapid.IntRange(0, 3).Draw(t, "body_component") == 0 && c.Allow("request-body-component") {
+	if rapid.IntRange(0, 2).Draw(t, "body_component") == 0 && c.Allow("request-body-component") {
 		cs := c.comps()
 		if cs.RequestBodies == nil {
 			cs.RequestBodies = map[string]*RequestBody{}
